@@ -160,7 +160,7 @@ fn bulk_step<const N: usize>(cut: bool) {
     kani::cover!(m == 1, "W: a single index");
 }
 
-//@ prop=C02,C03:thorough,C18:thorough tier=quick mem=8 timeout=2700 uses=cut,pivot inst="_get_many_from_sorted_mut_unchecked on ArrayViewMut1<u8>, len 4" bounds="inductive step: len 4, every non-empty strictly increasing index subset, every pivot; unwind 6"
+//@ prop=C02,C03,C18 tier=thorough mem=8 timeout=3600 uses=cut,pivot inst="_get_many_from_sorted_mut_unchecked on ArrayViewMut1<u8>, len 4" bounds="inductive step: len 4, every non-empty strictly increasing index subset, every pivot; unwind 6"
 #[kani::proof]
 #[kani::unwind(6)]
 fn c02_bulk_step_n4() {
